@@ -57,7 +57,11 @@ pub fn evals(prop: &str) -> Vec<(&'static str, &'static str)> {
                            ("hyp_recursive_items", "hyp_recursive_items")]),
         "C07" => v.extend([("prop_subst", "prop_subst"), ("prop_faithful", "prop_faithful"), ("hyp_has_subst", "hyp_has_subst"), ("known_F5", "known_F5")]),
         "C08" => v.extend([("prop_derives_exact", "prop_derives_exact"), ("hyp_has_recursive", "hyp_has_recursive")]),
-        "C10" => v.extend([("prop_fault_expect", "prop_fault_expect"), ("prop_wf_total", "prop_wf_total"), ("hyp_wf", "hyp_wf")]),
+        "C10" => v.extend([("prop_fault_expect", "prop_fault_expect"), ("prop_wf_total", "prop_wf_total"), ("hyp_wf", "hyp_wf"),
+                           ("prop_missing_path", "prop_missing_path"), ("prop_missing_id_paths", "prop_missing_id_paths"),
+                           ("hyp_missing_path", "hyp_missing_path"), ("hyp_missing_path_gen", "hyp_missing_path_gen"),
+                           ("hyp_missing_id_paths", "hyp_missing_id_paths"), ("hyp_missing_id_gen", "hyp_missing_id_gen"),
+                           ("hyp_descent_unsure", "hyp_descent_unsure")]),
         "C18" => v.extend([("prop_standalone", "prop_standalone")]),
         _ => {}
     }
@@ -67,7 +71,7 @@ pub fn evals(prop: &str) -> Vec<(&'static str, &'static str)> {
 
 pub fn rule(prop: &str) -> &'static str {
     match prop {
-        "C10" => "fault enumeration: for each well-formed base registry every entry id, every reference site and every field list receives one fault (wrong id / missing id / mixed fields), plus settings without compact / bits path, plus fault-free registries, plus the out-of-class stream outside:compact-field (compact fields with tuple / array / unit inner types: panic, model and implementation alike); non-trivial = distinct (registry, settings) with at least one generated item",
+        "C10" => "fault enumeration: for each well-formed base registry every entry id, every reference site and every field list receives one fault (wrong id / missing id / mixed fields), plus settings without compact / bits path (stream fault:no-compact-path / fault:no-bits-path and the random missing_paths settings: prop_missing_path demands CompactPathNone / DecodedBitsPathNone from resolve_type_path of every id whose descent meets such an entry and from generation, Ok elsewhere; counters hyp_missing_path, hyp_missing_path_gen), missing ids at EVERY site (field, sequence / array / tuple element, compact inner, bit store / order, type parameter: prop_missing_id_paths demands TypeNotFound [m] from resolve_type_path of exactly the entries whose descent reaches the dangling reference and from generation when an item field reaches it; the harness expectation of prop_fault_expect now also covers nested sites reached by generation, see extra.notes), plus fault-free registries, plus the out-of-class stream outside:compact-field (compact fields with tuple / array / unit inner types: panic, model and implementation alike); non-trivial = distinct (registry, settings) with at least one generated item",
         "C06" => "pairs of runs on equal inputs: permuted / repeated builder histories (derive / attribute calls permuted, one repeated; stream permuted-subs: substitute calls with pairwise distinct sources permuted together with everything else) and fresh settings objects; outputs must be token-identical; two independent de-duplication runs; stream subs-last-wins (kind last-wins): one source inserted twice with two targets in both orders - outputs need not agree, only the model must reproduce both; derive AND attribute lists of every observed item strictly sorted; non-trivial = distinct pair with at least one generated item",
         "C09" => "pairs of settings differing in exactly one switch (root, docs, codec, alloc, compact path, bits path) over the arm-coverage corpus (incl. the hand-built prelude registries: every arm of the prelude table) and random programs: a random base point with its six flips, and stream cube:* = all 64 switch combinations on small corpus registries (all corpus registries in thorough), every edge of the switch cube as one pair",
         "C02" => "arm-coverage corpus (incl. the hand-built prelude registries: recursion through every heap collection) x settings, registries generated as programs with random settings histories, and stream dedup-family: same-path family programs after ensure_unique_type_paths (the de-duplicated registry is the input); non-trivial = distinct (registry, settings) with at least one generated item",
@@ -175,6 +179,93 @@ pub fn three_member_families() -> Vec<serde_json::Value> {
         out.push(json!({"types": types}));
     }
     out
+}
+
+/// Does `generate_types_mod` certainly run into an id without entry?  Restates the walk of
+/// `resolve_type_path_recurse` (typegen/src/typegen/mod.rs:327-454) on registry JSON for the one use the
+/// fault injector has: ids >= number of entries exist only at the injected site, the base registry is
+/// well-formed with an acyclic non-field graph, both settings paths are present.  Item-eligible entries:
+/// namespaced composite / variant entries that are not `bitvec::order::*` (substituted by `base_spec`).
+pub fn generation_reaches_missing(reg: &serde_json::Value) -> bool {
+    let types = reg["types"].as_array().unwrap();
+    let n = types.len() as u64;
+    fn params_of(t: &serde_json::Value) -> Vec<(String, u64)> {
+        t["params"].as_array().map(|ps| ps.iter().filter_map(|p| {
+            p.get("type").and_then(|x| x.as_u64()).map(|i| (p["name"].as_str().unwrap_or("").to_string(), i))
+        }).collect()).unwrap_or_default()
+    }
+    fn last_seg(t: &serde_json::Value) -> Option<&str> {
+        t["path"].as_array().and_then(|p| p.last()).and_then(|s| s.as_str())
+    }
+    fn walk(types: &[serde_json::Value], n: u64, id: u64, parents: &[(String, u64)], name: Option<&str>, depth: usize) -> bool {
+        if depth > 200 {
+            return false;
+        }
+        if parents.iter().any(|(pn, c)| *c == id && name.map_or(true, |x| x == pn)) {
+            return false;
+        }
+        if id >= n {
+            return true;
+        }
+        let mut t = &types[id as usize]["type"];
+        if last_seg(t) == Some("Cow") {
+            match params_of(t).first() {
+                Some((_, inner)) => {
+                    if *inner >= n {
+                        return true;
+                    }
+                    t = &types[*inner as usize]["type"];
+                }
+                None => return false,
+            }
+        }
+        for (_, p) in params_of(t) {
+            if walk(types, n, p, parents, None, depth + 1) {
+                return true;
+            }
+        }
+        let d = &t["def"];
+        let sub = |x: &serde_json::Value| x.as_u64().map_or(false, |i| walk(types, n, i, parents, None, depth + 1));
+        if let Some(x) = d.get("sequence") {
+            sub(&x["type"])
+        } else if let Some(x) = d.get("array") {
+            sub(&x["type"])
+        } else if let Some(x) = d.get("compact") {
+            sub(&x["type"])
+        } else if let Some(x) = d.get("tuple") {
+            x.as_array().unwrap().iter().any(|e| sub(e))
+        } else if let Some(x) = d.get("bitsequence") {
+            sub(&x["bit_order_type"]) || sub(&x["bit_store_type"])
+        } else {
+            false
+        }
+    }
+    for e in types {
+        let t = &e["type"];
+        let path: Vec<&str> = t["path"].as_array().map(|p| p.iter().filter_map(|s| s.as_str()).collect()).unwrap_or_default();
+        if path.len() < 2 || (path.len() == 3 && path[0] == "bitvec") {
+            continue;
+        }
+        let parents = params_of(t);
+        let mut fields: Vec<&serde_json::Value> = vec![];
+        if let Some(c) = t["def"].get("composite") {
+            fields.extend(c["fields"].as_array().unwrap().iter());
+        } else if let Some(v) = t["def"].get("variant") {
+            for var in v["variants"].as_array().unwrap() {
+                fields.extend(var["fields"].as_array().unwrap().iter());
+            }
+        } else {
+            continue;
+        }
+        for f in fields {
+            if let Some(id) = f["type"].as_u64() {
+                if walk(types, n, id, &parents, f.get("typeName").and_then(|x| x.as_str()), 0) {
+                    return true;
+                }
+            }
+        }
+    }
+    false
 }
 
 pub fn outside_compact_field() -> Vec<serde_json::Value> {
@@ -299,14 +390,22 @@ pub fn cases(prop: &str, tier: &str, ctx: &mut Ctx, rng: &mut Rng) {
                     let missing = (n + rng.below(5)) as u32;
                     let fr = faults::apply(rj, &Fault::Missing { site: si, id: missing });
                     let r2 = reggen::to_registry(&fr);
-                    // expectation only where the site is certainly visited: a field of an item-eligible entry
+                    // expectation where the site is certainly visited by generation: a field of an
+                    // item-eligible entry, or a nested site (sequence / array / tuple element, compact
+                    // inner, bit store / order, type parameter) that the field descent of some
+                    // item-eligible entry reaches (`generation_reaches_missing`)
                     let parts: Vec<&str> = sites[si].split('/').collect();
                     let pos: usize = parts[2].parse().unwrap();
                     let is_field = sites[si].contains("/fields/");
                     let t = &reg.types[pos].ty;
                     let eligible = t.path.segments.len() >= 2
                         && !(t.path.segments.len() == 3 && t.path.segments[0] == "bitvec");
-                    let expect = if is_field && eligible && unique { Some(("TypeNotFound".to_string(), vec![missing as u128])) } else { None };
+                    let nested = !is_field && generation_reaches_missing(&fr);
+                    let expect = if ((is_field && eligible) || nested) && unique { Some(("TypeNotFound".to_string(), vec![missing as u128])) } else { None };
+                    if !is_field {
+                        *ctx.notes.entry(format!("fault:missing-id nested site, generation expectation {}",
+                                                 if expect.is_some() { "TypeNotFound" } else { "none" })).or_insert(0) += 1;
+                    }
                     ctx.push_full("fault:missing-id", &r2, Some(&fr), &spec, expect);
                 }
                 for (pos, variant, nf) in faults::field_lists(rj) {
